@@ -270,6 +270,28 @@ def registered_first():
     return ok, either
 
 
+def send_put_before_trigger():
+    """common/protocol.py `Protocol.send_message`: inside the loop over the blocks the block is put into the send queue BEFORE
+    the receiver thread is triggered (the other order loses the wake-up: the protocol thread may run, find the queue empty and
+    go back to sleep while the block arrives)."""
+    fn = G.P.find_function(G.parse("common/protocol.py"), "Protocol", "send_message")
+    loops = [st for st in fn.body if isinstance(st, ast.For)]
+    if len(loops) != 1:
+        raise G.P.Untranslatable("Protocol.send_message: expected one for loop over the blocks")
+    put = trig = None
+    for i, st in enumerate(loops[0].body):
+        for n in ast.walk(st):
+            if isinstance(n, ast.Call):
+                d = G.P.dotted(n.func)
+                if d == "self._send_queue.put" and put is None:
+                    put = i
+                if d == "self._thread.trigger_receiver" and trig is None:
+                    trig = i
+    if put is None or trig is None:
+        raise G.P.Untranslatable("Protocol.send_message: `self._send_queue.put` / `self._thread.trigger_receiver` not found in the loop")
+    return put < trig
+
+
 def lean_pairs(ps):
     return "[" + ", ".join(f"({s}, {f})" for s, f in ps) + "]"
 
@@ -343,6 +365,9 @@ def unit_Callbacks():
         and G.P.dotted(ifs[0].test.comparators[0]) == "self._callback_handler"
     out.append("/-- `_handle_stream_function` goes to `_handle_unknown_functions` exactly when the name is `not in self._callback_handler` (no other condition) -/")
     out.append(f"def unknownIffNoCallback : Bool := {str(only_contains).lower()}\n")
+    spt = send_put_before_trigger()
+    out.append("/-- `Protocol.send_message`: the block is queued before the protocol thread is triggered -/")
+    out.append(f"def sendPutBeforeTrigger : Bool := {str(spt).lower()}\n")
     wro = waiter_replies_only()
     out.append("/-- `HsmsProtocol._on_connection_message_received`: only an even function (a reply) is looked up in `_response_queues` -/")
     out.append(f"def waiterRepliesOnly : Bool := {str(wro).lower()}\n")
@@ -351,7 +376,7 @@ def unit_Callbacks():
     G.FACTS["Callbacks"] = {"builtin": {c: builtin[c] for c in HANDLER_CLASSES}, "catalogue": [(s, f) for s, f, _, _ in cat],
                             "replyRequired": req, "streamsWithF0": sorted({s for s, f, _, _ in cat if f == 0}),
                             "unknownReply": list(unk[0]), "abortFunction": ab[0][1], "protocolHooks": proto, "commWiring": wiring,
-                            "dispatch": rows, "linkLossStates": loss, "waiterRepliesOnly": wro, "registeredFirst": reg_first,
+                            "dispatch": rows, "linkLossStates": loss, "waiterRepliesOnly": wro, "sendPutBeforeTrigger": spt, "registeredFirst": reg_first,
                             "containsEither": either, "unknownIffNoCallback": only_contains}
 
 
